@@ -7,6 +7,7 @@ import props.C17 as C17
 import syntax as SX
 
 COQ_IMPORTS = ['Model.Tokens', 'Model.Parser', 'Model.Regexp', 'Model.CFG', 'Model.RegexpSyntax', 'Model.CFGText', 'Judge.Common', 'Judge.C17_judge', 'Judge.C16_judge', 'Judge.Extra_judge']
+PDA_FREE = True      # no PDA is involved: the recycling pass runs with GambaTools.pda_epsilon_closure_max_iterations = 3
 EXTRA_JUDGES = ['Extra']
 RULE = ('random DFAs / NFAs / PDAs / TMs (1-4 states; empty accepting set, empty alphabet, isolated states, several labels per edge, epsilon / blank in {_, ε, e} resp. {_, □}): print_X then parse_X; '
         'regular expressions: all trees <= 4 nodes and random trees over {a,b,c}: print_regexp / str() then parse_regexp, print_regexp_simple then parse_simple_regexp; simple grammars (single-letter names, every variable has a rule): '
